@@ -41,6 +41,12 @@ MCNext == MCNewObject \/ MCTemplate \/ MCGetConfig \/ MCLoadConfig \/ MCSetValue
 Spec == MCInit /\ [][MCNext]_<<vars, steps>>
 
 \* ---------------------------------------------------------------- lemmas
+\* alias of an alias: over every chain of up to 4 folders (each with no file / one of three files) the nearest own file is the file found by
+\* following the aliases one at a time (own file, else the file of the aliased device), and a chain without any file prescribes nothing
+ChainCases == UNION {[1..n -> [f : 0..3]] : n \in 1..4}
+ASSUME AliasComposes == \A c \in ChainCases : /\ HasFile(c) <=> ByAlias(c) # 0
+                                              /\ HasFile(c) => PrescribedFile(c) = ByAlias(c)
+                                              /\ \A x \in [f : 0..3] : HasFile(<<x>> \o c) => PrescribedFile(<<x>> \o c) = (IF x.f # 0 THEN x.f ELSE PrescribedFile(c))
 TypeOK == (\A r \in Leaves(L) : bits[r] \subseteq AllBits(W(L, r))) /\ LeafSet(L) = Leaves(L) /\ Computed(L) = {r \in Leaves(L) : Reg(L, r).comp # ""}
 LayoutOK == GroupsConsistent(L) /\ NoOverlap(L) /\ Resolvable(L) /\ FieldNamesUnique(L) /\ FieldsCover(L)
 \* "computed fields hold in every exported binary"
